@@ -984,7 +984,7 @@ class StyleProperties:
 
       for shadow in xml_attrib.split(","):
 
-        cs = shadow.split(" ")
+        cs = shadow.strip().split(" ")
 
         if len(cs) < 2 or len(cs) > 4:
           raise ValueError("Invalid Syntax")
